@@ -5,6 +5,7 @@
    The law:  w <= A * (length + buffered) + B  - work is proportional to the bytes given plus the (capped, C10) amount buffered.
      NormalisedCost(j) = w[j] / (len[j] + buf[j] + 1)
      Bounded  : NormalisedCost(j) <= 4 * base + 8     (base = the value calibrated on the reference tree for this pattern and mode)
+     LinearTotal : w[j] / (len[j] + 1) <= 2 * w[j - 3] / (len[j - 3] + 1) + 4   - the same without the buffered term (see below)
      NoGrowth : NormalisedCost(j) <= 2 * NormalisedCost(j - 3) + 4   - the constant-free clause: repeating a construct 8 times as often
                 must not make the work PER BYTE grow (a quadratic construct doubles it with every doubling of k)                 *)
 EXTENDS Integers, Sequences, FiniteSets, TLC, Json, IOUtils
@@ -16,6 +17,11 @@ NC(r, j) == r.ws[j] \div (r.lens[j] + r.bufsums[j] + 1)
 Bounded == LET r == Rows[k] IN \A j \in 1..Len(r.ws) : NC(r, j) <= 4 * r.base + 8
 \* judged at the top of the ladder (small k is dominated by warm-up effects that level off at the library's own caps)
 NoGrowth == LET r == Rows[k]  n == Len(r.ws) IN \A j \in {x \in {n - 1, n} : x >= 4} : NC(r, j) <= 2 * NC(r, j - 3) + 4
+\* the first sentence of C08 taken literally - work <= A * length + B, whatever was buffered: the work per STREAM byte must not grow
+\* when the construct is repeated 8 times as often (a buffer that grows with the input and is scanned again on every call passes
+\* NoGrowth, because the buffered amount grows as fast as the work, but not this clause)
+AC(r, j) == r.ws[j] \div (r.lens[j] + 1)
+LinearTotal == LET r == Rows[k]  n == Len(r.ws) IN \A j \in {x \in {n - 1, n} : x >= 4} : AC(r, j) <= 2 * AC(r, j - 3) + 4
 \* the ladder really pumped: the stream length at least doubles... (vacuity guard, not a property of the library)
 Pumped == LET r == Rows[k] IN \A j \in 2..Len(r.lens) : r.lens[j] > r.lens[j - 1]
 ASSUME PrintT(<<"CENSUS", Len(Rows), Cardinality({<<Rows[i].pat, Rows[i].mode>> : i \in 1..Len(Rows)})>>)
